@@ -52,7 +52,16 @@ def main(argv=None) -> int:
         if not names:
             print(f"ANALYSIS-ERROR property={prop}: no rule registered")
             return 2
-        results = [run_rule(n, repo) for n in names]
+        results = []
+        errors = []
+        for n in names:
+            try:
+                results.append(run_rule(n, repo))
+            except AnalysisError as e:
+                errors.append(f"{n}: {e}")
+            except Exception as e:  # a bug in one rule must not hide the other rules' verdicts
+                tb = traceback.extract_tb(e.__traceback__)[-1]
+                errors.append(f"{n}: internal error {type(e).__name__}: {e} ({tb.filename.split('/')[-1]}:{tb.lineno})")
         extra = {
             "modules_parsed": len(repo.modules),
             "functions_in_repo": sum(len(m.funcs) for m in repo.modules.values()),
@@ -66,7 +75,14 @@ def main(argv=None) -> int:
             if st.get("failed"):
                 print(f"ANALYSIS-ERROR property={prop}: rule self-test failed: {st['failed']}")
                 return 2
-        return finish(prop, args.tier, results, t0, extra)
+        if errors:
+            extra["analysis_errors"] = errors
+        rc = finish(prop, args.tier, results, t0, extra) if results else 0
+        for e in errors:
+            print(f"ANALYSIS-ERROR property={prop}: {e}")
+        if rc == 1:
+            return 1  # a violation found by one rule stands even if another rule could not run
+        return 2 if errors else rc
     except AnalysisError as e:
         print(f"ANALYSIS-ERROR property={prop}: {e}")
         return 2
